@@ -9,9 +9,6 @@ Definition remaining (t : trak_state) : N := ts_last_chunk t + 1 - ts_next t.
 Definition meas (ts : list trak_state) : N := sumN (map remaining ts).
 Definition next_ok (t : trak_state) : Prop := 1 <= ts_next t <= ts_last_chunk t + 1.
 
-(* the fuel handed to the loop by the theorems (and by the extracted driver): one iteration per kept chunk + the final one *)
-Definition fill_fuel (ts : list trak_state) : nat := S (N.to_nat (sumN (map ts_last_chunk ts))).
-
 Lemma meas_upd_ts ts i f t : nthN ts i = Some t -> meas (upd_ts ts i f) + remaining t = meas ts + remaining (f t).
 Proof.
   unfold meas. revert i; induction ts as [|x rest IH]; intros i Hi; [discriminate|].
